@@ -340,7 +340,7 @@ CONFIG = {
                         "of pointer code is right where its alias check passes"],
         "extractors": [{"name": "sclimbs", "out": "ScLimbs.lean"}, {"name": "felimbs", "out": "FeLimbs.lean"},
                        {"name": "edpoints", "out": "EdPoints.lean"}, {"name": "skeleton", "out": "Skeletons.lean"}],
-        "aux_driver": {"exe": "scdriver", "ops": ["c14.screduce", "c14.scmuladd", "c14.sccanon", "c14.fe", "c14.fel", "c14.pt", "c14.dg"]},
+        "aux_driver": {"exe": "scdriver", "ops": ["c14.screduce", "c14.scmuladd", "c14.sccanon", "c14.fe", "c14.fel", "c14.pt", "c14.dg", "c14.sm"]},
         "extra_modules": ["PatVerif.Proofs.Sig", "PatVerif.Proofs.DER", "PatVerif.Proofs.ScReduce", "PatVerif.Proofs.ScMulAdd", "PatVerif.Proofs.ScScalar",
                           "PatVerif.Proofs.FeCarry", "PatVerif.Proofs.FeMul", "PatVerif.Proofs.FeMisc", "PatVerif.Proofs.FeBytes", "PatVerif.Proofs.FePow",
                           "PatVerif.Proofs.FeAbs", "PatVerif.Proofs.FeField", "PatVerif.Proofs.FeSqrt", "PatVerif.Proofs.EdPoints", "PatVerif.Proofs.EdDecode", "PatVerif.Proofs.SkelEd25519",
@@ -368,7 +368,7 @@ CONFIG = {
                         "Model/GoInt.lean reads Go's int64 operators correctly where the generated side conditions hold"],
         "extractors": [{"name": "sclimbs", "out": "ScLimbs.lean"}, {"name": "felimbs", "out": "FeLimbs.lean"},
                        {"name": "edpoints", "out": "EdPoints.lean"}, {"name": "skeleton", "out": "Skeletons.lean"}],
-        "aux_driver": {"exe": "scdriver", "ops": ["c14.screduce", "c14.scmuladd", "c14.sccanon", "c14.fe", "c14.fel", "c14.pt", "c14.dg"]},
+        "aux_driver": {"exe": "scdriver", "ops": ["c14.screduce", "c14.scmuladd", "c14.sccanon", "c14.fe", "c14.fel", "c14.pt", "c14.dg", "c14.sm"]},
         "extra_modules": ["PatVerif.Proofs.Group", "PatVerif.Proofs.Sig", "PatVerif.Proofs.ScReduce", "PatVerif.Proofs.ScMulAdd", "PatVerif.Proofs.ScScalar",
                           "PatVerif.Proofs.FeCarry", "PatVerif.Proofs.FeMul", "PatVerif.Proofs.FeMisc", "PatVerif.Proofs.FeBytes", "PatVerif.Proofs.FePow",
                           "PatVerif.Proofs.FeAbs", "PatVerif.Proofs.FeField", "PatVerif.Proofs.FeSqrt", "PatVerif.Proofs.EdPoints", "PatVerif.Proofs.EdDecode", "PatVerif.Proofs.SkelEd25519",
